@@ -128,6 +128,18 @@ def by(txns, field):
     return [groups[k] for k in sorted(groups)]
 
 
+def _sample_stddev(g):
+    """Sample standard deviation (n - 1), exact up to the final square root; 0 for fewer than two values."""
+    import math
+    from fractions import Fraction
+    if len(g) < 2:
+        return 0
+    xs = [Fraction(x) for x in g]
+    mean = sum(xs) / len(xs)
+    var = sum((x - mean) ** 2 for x in xs) / (len(xs) - 1)
+    return math.sqrt(var)
+
+
 def evaluate(expr, txns, variables, period):
     prim = primitives(txns)
     if not prim["_cv_defined"]:
@@ -142,7 +154,7 @@ def evaluate(expr, txns, variables, period):
         raise RefError("period field")
 
     fns = {"sum": _agg(sum), "count": lambda v: [len(g) for g in v] if _is_nested(v) else len(v), "avg": _agg(lambda g: sum(g) / len(g)),
-           "max": _agg(max), "min": _agg(min), "abs": abs, "round": round, "by": lambda f: by(txns, f), "period": period_fn,
+           "max": _agg(max), "min": _agg(min), "stddev": _agg(_sample_stddev), "abs": abs, "round": round, "by": lambda f: by(txns, f), "period": period_fn,
            "max_val": lambda a, b: max(a, b), "min_val": lambda a, b: min(a, b)}
     ns = {k: v for k, v in prim.items() if not k.startswith("_")}
     ns.update({"true": True, "false": False})
